@@ -517,6 +517,39 @@ def muscle_gain(len: float, vel: float, lengthrange: wp.vec2, acc0: float, prm: 
 
 
 @wp.func
+def muscle_gain_vel(len: float, vel: float, lengthrange: wp.vec2, acc0: float, prm: vec10) -> float:
+  """Derivative of muscle_gain with respect to vel (mjd_muscleGain_vel)."""
+  range_ = wp.vec2(prm[0], prm[1])
+  force = prm[2]
+  scale = prm[3]
+  lmin = prm[4]
+  lmax = prm[5]
+  vmax = prm[6]
+  fvmax = prm[8]
+
+  if force < 0.0:
+    force = scale / wp.max(MJ_MINVAL, acc0)
+
+  L0 = (lengthrange[1] - lengthrange[0]) / wp.max(MJ_MINVAL, range_[1] - range_[0])
+  L = range_[0] + (len - lengthrange[0]) / wp.max(MJ_MINVAL, L0)
+  V = vel / wp.max(MJ_MINVAL, L0 * vmax)
+  FL = muscle_gain_length(L, lmin, lmax)
+
+  # derivative of the velocity curve
+  y = fvmax - 1.0
+  if V <= -1.0:
+    dFV = 0.0
+  elif V <= 0.0:
+    dFV = 2.0 * V + 2.0
+  elif V <= y:
+    dFV = 2.0 * (y - V) / wp.max(MJ_MINVAL, y)
+  else:
+    dFV = 0.0
+
+  return -force * FL * dFV / wp.max(MJ_MINVAL, L0 * vmax)
+
+
+@wp.func
 def muscle_bias(len: float, lengthrange: wp.vec2, acc0: float, prm: vec10) -> float:
   """Calculates muscle passive force.
 
